@@ -320,7 +320,7 @@ fn enumerate(st: &mut Stats, cfg: &Config, engine: &str, limit: u64, repeats: u3
 }
 
 /// Free-running stress (no scheduler: the observer returns at once for threads without a TID):
-/// one writer thread takes credit as fast as it can while another thread grants it in a tight loop.
+/// one writer thread (or two: `poll_obtain_write_permission` takes `&self`) takes credit as fast as it can while another thread grants it in a tight loop.
 /// Reaches interleavings between individual atomic operations, which the hook-level scheduler cannot.
 /// Oracle: W1 conservation at the end (final = initial + granted - frames), exact.
 fn stress(st: &mut Stats, rng: &mut Rng64, rounds: u64, grants: u32, engine: &str) {
@@ -333,34 +333,44 @@ fn stress(st: &mut Stats, rng: &mut Rng64, rounds: u64, grants: u32, engine: &st
         let ctl = Arc::new(sa.ctl);
         let _keep = (sa.tx_msg_rx, sa.dropped_flows_rx);
         let done = Arc::new(AtomicBool::new(false));
-        let barrier = Arc::new(std::sync::Barrier::new(2));
-        let wakes = Arc::new(CountWaker(AtomicU64::new(0)));
-        let (s, d, b, wk) = (stream.clone(), done.clone(), barrier.clone(), wakes.clone());
-        let writer = std::thread::spawn(move || {
-            let waker = Waker::from(wk);
-            let cx = Context::from_waker(&waker);
-            b.wait();
-            let (mut ready, mut during) = (0u32, 0u32);
-            loop {
-                let finished = d.load(Ordering::SeqCst);
-                match s.poll_obtain_write_permission(&cx) {
-                    Poll::Ready(Some(())) => {
-                        ready += 1;
-                        if !finished {
-                            during += 1;
+        // one writer thread (the API's normal use) or two (poll_obtain_write_permission takes &self: two threads may compete for the last unit)
+        let n_writers = 1 + (round % 2) as usize;
+        let barrier = Arc::new(std::sync::Barrier::new(1 + n_writers));
+        let cap = c0 + grants * unit + 16;
+        let mut writers = Vec::new();
+        for _ in 0..n_writers {
+            let wakes = Arc::new(CountWaker(AtomicU64::new(0)));
+            let (s, d, b, wk) = (stream.clone(), done.clone(), barrier.clone(), wakes.clone());
+            writers.push(std::thread::spawn(move || {
+                let waker = Waker::from(wk);
+                let cx = Context::from_waker(&waker);
+                b.wait();
+                let (mut ready, mut during) = (0u32, 0u32);
+                loop {
+                    let finished = d.load(Ordering::SeqCst);
+                    match s.poll_obtain_write_permission(&cx) {
+                        Poll::Ready(Some(())) => {
+                            ready += 1;
+                            if !finished {
+                                during += 1;
+                            }
+                            if ready > cap {
+                                // more frames than credit ever existed: stop, the conservation check below reports it
+                                break;
+                            }
                         }
-                    }
-                    Poll::Ready(None) => break,
-                    Poll::Pending => {
-                        if finished {
-                            break;
+                        Poll::Ready(None) => break,
+                        Poll::Pending => {
+                            if finished {
+                                break;
+                            }
+                            std::hint::spin_loop();
                         }
-                        std::hint::spin_loop();
                     }
                 }
-            }
-            (ready, during)
-        });
+                (ready, during)
+            }));
+        }
         let (c, d, b) = (ctl.clone(), done.clone(), barrier.clone());
         let acker = std::thread::spawn(move || {
             b.wait();
@@ -370,16 +380,24 @@ fn stress(st: &mut Stats, rng: &mut Rng64, rounds: u64, grants: u32, engine: &st
             d.store(true, Ordering::SeqCst);
         });
         acker.join().ok();
-        let (ready, during) = writer.join().unwrap_or((0, 0));
+        let (mut ready, mut during) = (0u32, 0u32);
+        for w in writers {
+            let (r, d2) = w.join().unwrap_or((0, 0));
+            ready = ready.saturating_add(r);
+            during = during.saturating_add(d2);
+        }
         st.evaluations += 1;
         let granted = grants * unit;
         let fin = stream.verif_send_credit();
         if u64::from(fin) + u64::from(ready) != u64::from(c0) + u64::from(granted) {
             st.violation(Violation {
                 signature: "credit-not-conserved|stress".into(),
-                detail: format!("free-running writer against {grants} x acknowledge({unit}): final credit {fin} + frames {ready} != initial {c0} + granted {granted}"),
-                replay: json!({"kind": "c12-stress", "engine": engine, "round": round, "c0": c0, "unit": unit, "grants": grants, "final_credit": fin, "frames": ready, "note": "real-thread race; re-run the job, the round is not deterministic"}),
+                detail: format!("{n_writers} free-running writer thread(s) against {grants} x acknowledge({unit}): final credit {fin} + frames {ready} != initial {c0} + granted {granted}"),
+                replay: json!({"kind": "c12-stress", "engine": engine, "round": round, "c0": c0, "unit": unit, "grants": grants, "writers": n_writers, "final_credit": fin, "frames": ready, "note": "real-thread race; re-run the job, the round is not deterministic"}),
             });
+        }
+        if n_writers == 2 {
+            st.target("stress_rounds_with_two_writer_threads", 1);
         }
         if during > 0 {
             st.target("stress_takes_while_granting", u64::from(during));
